@@ -313,7 +313,11 @@ def r7_index_options(facts, rep):
     }
     sites = census(facts, lambda n: ("tantivy::schema::TextFieldIndexing" in n or "tantivy::schema::TextOptions" in n) and "::fmt" not in n)
     for b, bid, t, sp, name in sites:
-        rep.ob("C16-R7", "option:%s" % name.rsplit("::", 1)[-1], name in allowed, "%s is called in %s" % (name, b.path), b.site(sp))
+        okc = name in allowed
+        if not okc and name.endswith("::set_fieldnorms") and len(t["args"]) == 2:
+            # the default said explicitly
+            okc = {l for l in flow.slice_back(b, t["args"][1], facts=facts)} == {("const", True)}
+        rep.ob("C16-R7", "option:%s" % name.rsplit("::", 1)[-1], okc, "%s is called in %s" % (name, b.path), b.site(sp))
     rep.floor("C16-R7", "text-field option calls", len(sites), 4)
     for b, bid, t, sp, name in sites:
         if name.endswith("set_index_option"):
